@@ -289,9 +289,17 @@ def run_sharded_(cases, tag, profile="debug", want_model=True, want_impl=True):
         if want_model:
             jobs.append(("model", [sqm, cf, os.path.join(d, "m%d.txt" % i)], os.path.join(d, "m%d.txt" % i)))
 
+    def big_stack():
+        import resource
+        try:
+            soft, hard = resource.getrlimit(resource.RLIMIT_STACK)
+            resource.setrlimit(resource.RLIMIT_STACK, (hard, hard))
+        except Exception:
+            pass
+
     def work(j):
         kind, cmd, outp = j
-        p = subprocess.run(cmd, stdout=subprocess.DEVNULL, stderr=subprocess.PIPE, timeout=3000)
+        p = subprocess.run(cmd, stdout=subprocess.DEVNULL, stderr=subprocess.PIPE, timeout=3000, preexec_fn=big_stack)
         return kind, outp, p.returncode, p.stderr.decode("utf-8", "replace")[-500:]
 
     impl, model = {}, {}
@@ -338,6 +346,10 @@ def cli_args(opts_s, path):
             have_o = True
     if not have_o:
         a += ["-O", "x"]
+    if "-o" not in a:
+        a += ["-o", "x"]
+    if "-i" not in a:
+        a += ["-i", "Q"]
     return a
 
 
